@@ -1,7 +1,8 @@
 import Pm.Daemon
+import Pm.EnqProof
 /-! Helper lemmas for C02 / C03: the terminal reply (`finalReply`), the completion callback (`actFinish`,
     `applyOuts`) and the creation of a command (`install`) of `Pm/Daemon.lean`, cut into pieces. -/
-namespace Pm.Daemon
+namespace Pm.Daemon.Reply
 open Pm Pm.Client
 open Pm.Dev2 (Dev Action Arg PState PResult ActErr)
 abbrev DOut := Pm.Dev2.Out
@@ -1012,33 +1013,6 @@ theorem partition_out_of_range_counterexample :
     Covered c ∧ onNodes c ++ offNodes c ++ unkNodes c = ["b".toList] ∧
     finalReply true c = some (bstr "303 a: unknown\r\n303 b: on\r\n103 Query complete\r\n") := by decide +kernel
 
-end Pm.Daemon
+end Pm.Daemon.Reply
 
 /-! axiom audit (expected: at most `propext`, `Classical.choice`, `Quot.sound`) -/
-#print axioms Pm.Daemon.finalReply_power_iff
-#print axioms Pm.Daemon.finalReply_status_ranged
-#print axioms Pm.Daemon.finalReply_status_x
-#print axioms Pm.Daemon.finalReply_temp
-#print axioms Pm.Daemon.finalReply_query_suffix
-#print axioms Pm.Daemon.qTerm_suffix_iff
-#print axioms Pm.Daemon.partition_perm
-#print axioms Pm.Daemon.lists_disjoint
-#print axioms Pm.Daemon.cls_agree
-#print axioms Pm.Daemon.temp_perm
-#print axioms Pm.Daemon.temp_disjoint
-#print axioms Pm.Daemon.actFinish_more
-#print axioms Pm.Daemon.actFinish_last
-#print axioms Pm.Daemon.actFinish_last_abort
-#print axioms Pm.Daemon.actFinish_other
-#print axioms Pm.Daemon.actFinish_error_mono
-#print axioms Pm.Daemon.applyOuts_eq
-#print axioms Pm.Daemon.fold_pending
-#print axioms Pm.Daemon.fold_final_error
-#print axioms Pm.Daemon.fold_final_power_clean
-#print axioms Pm.Daemon.install_eq
-#print axioms Pm.Daemon.install_fresh
-#print axioms Pm.Daemon.install_creates
-#print axioms Pm.Daemon.install_covered
-#print axioms Pm.Daemon.toChars_ofChars
-#print axioms Pm.Daemon.byteName_toChars
-#print axioms Pm.Daemon.partition_out_of_range_counterexample
